@@ -74,7 +74,8 @@ TQuiet   == Ev("quiet") /\ ~ENABLED Urgent /\ (up => chan = <<>> /\ bl = <<>>)
 
 Silent == (CWaitWoken \/ CWaitTimeout \/ ProcFinish \/ Reply1 \/ SleepWake \/ SleepExpire) /\ Keep
 Advance == /\ l <= Len(T) /\ E.t > now /\ ~ENABLED Urgent
-           /\ now' = E.t /\ UNCHANGED <<obj, chan, bl, up, stopping, mem, wk, pc, cyc, bud, gh, conf, tid, l>>
+           /\ now' = now + 1          \* second by second: a deadline in between may not be jumped over
+           /\ UNCHANGED <<obj, chan, bl, up, stopping, mem, wk, pc, cyc, bud, gh, conf, tid, l>>
 
 AllInv == InvokeGoverned /\ InvokeCauseOk /\ CloseExactlyWhenDone /\ NeverEarly /\ ForeignUntouched /\ ResumeOnce
           /\ FreshOrTimedOut /\ RetriesBounded /\ Stealth
